@@ -413,6 +413,42 @@ Proof.
   apply orb_false_iff in E. destruct E as [_ E]. qb2p. pose proof (cov_ratio_nonneg c (mrects m) W). qlra.
 Qed.
 
+Lemma area_of_app n l1 l2 : area_of n (l1 ++ l2) = area_of n l1 + area_of n l2.
+Proof. unfold area_of. rewrite map_app. apply Qcsum_app. Qed.
+
+Definition pre_cells (l : list nmod) : list cell :=
+  flat_map (fun m => map (fun r => mkCell (set_fixed r) [(mname m, 1)] 0%nat) (mrects m)) l.
+
+Lemma area_pre_block n k rs :
+  area_of n (map (fun r => mkCell (set_fixed r) [(k, 1)] 0%nat) rs) =
+  if String.eqb k n then Qcsum (map area rs) else 0.
+Proof.
+  unfold area_of. rewrite map_map. unfold ratio. cbn [calloc crect lookup].
+  destruct (String.eqb k n).
+  - apply Qcsum_map_ext. intros r _. unfold set_fixed, area. cbn [rw rh]. ring.
+  - apply Qcsum_map_zero. intros r _. ring.
+Qed.
+
+Lemma area_pre_absent n l : ~ In n (map mname l) -> area_of n (pre_cells l) = 0.
+Proof.
+  unfold pre_cells. induction l as [|x l IH]; cbn [map flat_map]; intro H; [reflexivity|].
+  rewrite area_of_app, area_pre_block, IH by (intro; apply H; right; assumption).
+  destruct (String.eqb (mname x) n) eqn:E; [|ring].
+  apply String.eqb_eq in E. exfalso. apply H. left. exact E.
+Qed.
+
+Lemma area_pre_fixed l m : NoDup (map mname l) -> In m l ->
+  area_of (mname m) (pre_cells l) = Qcsum (map area (mrects m)).
+Proof.
+  unfold pre_cells. induction l as [|x l IH]; cbn [map flat_map]; intros Hn Hin; [destruct Hin|].
+  inversion Hn as [|? ? Hx Hn']; subst. rewrite area_of_app, area_pre_block.
+  destruct Hin as [->|Hin].
+  - rewrite String.eqb_refl. fold (pre_cells l). rewrite area_pre_absent by exact Hx. ring.
+  - destruct (String.eqb (mname x) (mname m)) eqn:E.
+    + apply String.eqb_eq in E. exfalso. apply Hx. rewrite E. apply in_map. exact Hin.
+    + rewrite (IH Hn' Hin). ring.
+Qed.
+
 Lemma shape_wf sqrt_o m : Forall wf (mrects m) -> Forall wf (shape sqrt_o m).
 Proof.
   intro H. unfold shape. destruct (mrects m) eqn:Er; [|exact H]. unfold create_square.
@@ -556,5 +592,103 @@ Section Main.
     destruct (Qcltb 0 (covered c (shape m) / area c)) eqn:E; qb2p.
     - split; [intros _; apply D; exact E|intros _; eexists; reflexivity].
     - split; [intros [q Hq]; discriminate|]. intro Hp. apply D in Hp. exfalso. qlra.
+  Qed.
+
+  Lemma fixed_in_fms mods m : In m mods -> mfixed m = true -> In (squared m) (filter mfixed (map squared mods)).
+  Proof. intros Hm Hf. apply filter_In. split; [apply in_map; exact Hm|exact Hf]. Qed.
+
+  Lemma fixed_shape mods m : Forall (fun m => mfixed m = true -> mrects m <> []) mods ->
+    In m mods -> mfixed m = true -> shape m = mrects m.
+  Proof. intros HX Hm Hf. rewrite Forall_forall in HX. apply shape_rects. apply HX; assumption. Qed.
+
+  (* a refinable cell has no area in common with a fixed module *)
+  Lemma fixed_not_on_ref R Fx mods c m : compatible R Fx mods -> In c R -> In m mods -> mfixed m = true ->
+    covered c (shape m) = 0.
+  Proof.
+    intros (HW & HP & HR & HF & HX & HN & HS) Hc Hm Hf. rewrite (fixed_shape mods m HX Hm Hf).
+    apply covered_zero. intros r Hr. destruct (pairwise_app R Fx HP) as (_ & _ & H). apply H; [exact Hc|].
+    rewrite HF. apply in_flat_map. exists m. split; [apply filter_In; split; assumption|exact Hr].
+  Qed.
+
+  Lemma same_name mods m m' : NoDup (map mname mods) -> In m mods -> In m' (map squared mods) ->
+    mname m' = mname m -> m' = squared m.
+  Proof.
+    intros HN Hm Hm' E. apply (NoDup_map_inj mname (map squared mods)); auto.
+    - rewrite names_squared. exact HN.
+    - apply in_map. exact Hm.
+  Qed.
+
+  (* every fixed module owns exactly its own cells, wholly and alone *)
+  Theorem ia_fixed_owns feps aeps inc0 R Fx mods out : compatible R Fx mods -> 0 < feps -> feps < 1 ->
+    initial_allocation sqrt_o feps aeps inc0 R Fx mods = Accept out ->
+    forall m, In m mods -> mfixed m = true ->
+      (forall r, In r (mrects m) -> In (mkCell (set_fixed r) [(mname m, 1)] 0%nat) out) /\
+      (forall cell, In cell out -> 0 < ratio (mname m) cell ->
+         exists r, In r (mrects m) /\ cell = mkCell (set_fixed r) [(mname m, 1)] 0%nat).
+  Proof.
+    intros Hc H0 H1 Ha m Hm Hf. rewrite (ia_accept_inv feps aeps inc0 R Fx mods out Hc H0 H1 Ha).
+    pose proof Hc as (HW & HP & HR & HF & HX & HN & HS).
+    unfold expected, out_cells. split.
+    - intros r Hr. apply in_or_app. left. apply in_flat_map. exists (squared m).
+      split; [apply fixed_in_fms; assumption|].
+      rewrite squared_rects, (fixed_shape mods m HX Hm Hf).
+      apply (in_map (fun r => mkCell (set_fixed r) [(mname (squared m), 1)] 0%nat)). exact Hr.
+    - intros cell Hin Hp. apply in_app_or in Hin. destruct Hin as [Hin|Hin].
+      + apply in_flat_map in Hin. destruct Hin as (m' & Hm' & Hcell).
+        apply in_map_iff in Hcell. destruct Hcell as (r & <- & Hr).
+        unfold ratio in Hp. cbn [calloc lookup] in Hp.
+        destruct (String.eqb (mname m') (mname m)) eqn:E; [|exfalso; qlra].
+        apply String.eqb_eq in E. apply filter_In in Hm'. destruct Hm' as [Hm' _].
+        pose proof (same_name mods m m' HN Hm Hm' E) as ->.
+        rewrite squared_rects, (fixed_shape mods m HX Hm Hf) in Hr. exists r. split; [exact Hr|reflexivity].
+      + apply in_map_iff in Hin. destruct Hin as (c & <- & Hc').
+        rewrite (cell_ratio inc0 R Fx mods c m 0%nat Hc Hc' Hm) in Hp.
+        rewrite (fixed_not_on_ref R Fx mods c m Hc Hc' Hm Hf) in Hp.
+        exfalso. unfold Qcdiv in Hp. revert Hp. generalize (/ area c). intros. qlra.
+  Qed.
+
+  Lemma area_expected inc0 R Fx mods m : compatible R Fx mods -> In m mods ->
+    area_of (mname m) (expected inc0 R mods) =
+    (if mfixed m then Qcsum (map area (mrects m)) else 0) + Qcsum (map (fun c => covered c (shape m)) R).
+  Proof.
+    intros Hc Hm. pose proof Hc as (HW & HP & HR & HF & HX & HN & HS).
+    unfold expected, out_cells. rewrite area_of_app. f_equal.
+    - fold (pre_cells (filter mfixed (map squared mods))). destruct (mfixed m) eqn:Hf.
+      + change (mname m) with (mname (squared m)). rewrite area_pre_fixed.
+        * rewrite squared_rects, (fixed_shape mods m HX Hm Hf). reflexivity.
+        * apply NoDup_map_filter. rewrite names_squared. exact HN.
+        * apply fixed_in_fms; assumption.
+      + apply area_pre_absent. intro Hin. apply in_map_iff in Hin. destruct Hin as (m' & E & Hm').
+        apply filter_In in Hm'. destruct Hm' as [Hm' Hf'].
+        pose proof (same_name mods m m' HN Hm Hm' E) as ->. rewrite squared_fixed in Hf'. congruence.
+    - unfold area_of. rewrite map_map. apply Qcsum_map_ext. intros c Hin. cbn [crect].
+      rewrite (cell_ratio inc0 R Fx mods c m 0%nat Hc Hin Hm).
+      apply div_mul_cancel. apply pos_neq0. apply wf_area_pos.
+      rewrite Forall_forall in HW. apply HW. apply in_or_app. left. exact Hin.
+  Qed.
+
+  (* the area allocated to a module is the area of its shape on the cells open to it:
+     the refinable cells for a soft or hard module, its own rectangles for a fixed module *)
+  Theorem ia_area feps aeps inc0 R Fx mods out : compatible R Fx mods -> 0 < feps -> feps < 1 ->
+    initial_allocation sqrt_o feps aeps inc0 R Fx mods = Accept out ->
+    forall m, In m mods ->
+      (mfixed m = false ->
+         area_of (mname m) out = Qcsum (map (fun r => Qcsum (map (fun c => area_overlap c r) R)) (shape m))) /\
+      (mfixed m = true ->
+         area_of (mname m) out = Qcsum (map area (mrects m)) /\
+         area_of (mname m) out = Qcsum (map (fun r => Qcsum (map (fun c => area_overlap c r) (R ++ Fx))) (mrects m))).
+  Proof.
+    intros Hc H0 H1 Ha m Hm. rewrite (ia_accept_inv feps aeps inc0 R Fx mods out Hc H0 H1 Ha).
+    rewrite (area_expected inc0 R Fx mods m Hc Hm). split; intro Hf; rewrite Hf.
+    - unfold covered. rewrite Qcplus_0_l. exact (Qcsum_swap (fun c r => area_overlap c r) R (shape m)).
+    - assert (E : Qcsum (map (fun c => covered c (shape m)) R) = 0).
+      { apply Qcsum_map_zero. intros c Hin. apply (fixed_not_on_ref R Fx mods c m Hc Hin Hm Hf). }
+      rewrite E. split; [ring|]. rewrite Qcplus_0_r. apply Qcsum_map_ext. intros r Hr.
+      pose proof Hc as (HW & HP & HR & HF & HX & HN & HS).
+      assert (Hin : In r (R ++ Fx)).
+      { apply in_or_app. right. rewrite HF. apply in_flat_map. exists m.
+        split; [apply filter_In; split; assumption|exact Hr]. }
+      rewrite <- (covered_self (R ++ Fx) r HP HW Hin). unfold covered.
+      apply Qcsum_map_ext. intros c _. apply ov_sym.
   Qed.
 End Main.
